@@ -16,6 +16,8 @@ pub struct C07 {
     pub multi: bool,
     pub len0: Option<u64>,
     pub xs: Vec<u64>,
+    /// the bar is built with_position(this); reset_elapsed/reset_eta are in the alphabet then
+    pub pos0: Option<u64>,
 }
 
 impl Hist for C07 {
@@ -30,6 +32,9 @@ impl Hist for C07 {
         if self.multi {
             v.push(BOp::MpRemove);
         }
+        if self.pos0.is_some() {
+            v.extend([BOp::ResetElapsed, BOp::ResetEta]);
+        }
         v
     }
 
@@ -42,9 +47,14 @@ impl Hist for C07 {
             Some(m) => m.add(indicatif::ProgressBar::with_draw_target(self.len0, indicatif::ProgressDrawTarget::hidden()).with_style(style)),
             None => bar_on(&catcher, self.len0, style),
         };
+        let pb = match self.pos0 {
+            Some(p) => pb.with_position(p),
+            None => pb,
+        };
         let mut rf = RefState::new(self.len0, Fin::AndClear, 0);
+        rf.pos = self.pos0.unwrap_or(0);
         let shown: Vec<String> = hist.iter().map(|o| format!("{:?}", o)).collect();
-        let cfg = format!("initial length {:?}{}", self.len0, if self.multi { ", member of a MultiProgress" } else { "" });
+        let cfg = format!("initial length {:?}{}{}", self.len0, if self.multi { ", member of a MultiProgress" } else { "" }, match self.pos0 { Some(p) => format!(", built with_position({p})"), None => String::new() });
         for (i, op) in hist.iter().enumerate() {
             clock::advance_ms(7);
             if *op == BOp::MpRemove {
@@ -111,8 +121,8 @@ impl Hist for C07 {
 
 fn configs(tier: Tier) -> Vec<(C07, usize)> {
     match tier {
-        Tier::Quick => vec![(C07 { multi: true, len0: Some(5), xs: vec![1, u64::MAX] }, 3), (C07 { multi: false, len0: Some(5), xs: XS.to_vec() }, 3), (C07 { multi: false, len0: Some(5), xs: vec![1, u64::MAX] }, 4), (C07 { multi: false, len0: None, xs: vec![1, u64::MAX] }, 3), (C07 { multi: false, len0: Some(u64::MAX), xs: vec![0, 1 << 63, u64::MAX] }, 3)],
-        Tier::Thorough => vec![(C07 { multi: true, len0: Some(5), xs: vec![1, 2, u64::MAX] }, 4), (C07 { multi: true, len0: Some(u64::MAX), xs: vec![1] }, 4), (C07 { multi: false, len0: Some(5), xs: XS.to_vec() }, 4), (C07 { multi: false, len0: None, xs: XS.to_vec() }, 3), (C07 { multi: false, len0: Some(u64::MAX), xs: vec![1, 1 << 63, u64::MAX] }, 5)],
+        Tier::Quick => vec![(C07 { multi: false, len0: Some(9), xs: vec![1, u64::MAX], pos0: Some(4) }, 3), (C07 { multi: true, len0: Some(5), xs: vec![1, u64::MAX], pos0: None }, 3), (C07 { multi: false, len0: Some(5), xs: XS.to_vec(), pos0: None }, 3), (C07 { multi: false, len0: Some(5), xs: vec![1, u64::MAX], pos0: None }, 4), (C07 { multi: false, len0: None, xs: vec![1, u64::MAX], pos0: None }, 3), (C07 { multi: false, len0: Some(u64::MAX), xs: vec![0, 1 << 63, u64::MAX], pos0: None }, 3)],
+        Tier::Thorough => vec![(C07 { multi: false, len0: Some(9), xs: vec![1, 2, u64::MAX], pos0: Some(4) }, 4), (C07 { multi: true, len0: None, xs: vec![1], pos0: Some(u64::MAX) }, 4), (C07 { multi: true, len0: Some(5), xs: vec![1, 2, u64::MAX], pos0: None }, 4), (C07 { multi: true, len0: Some(u64::MAX), xs: vec![1], pos0: None }, 4), (C07 { multi: false, len0: Some(5), xs: XS.to_vec(), pos0: None }, 4), (C07 { multi: false, len0: None, xs: XS.to_vec(), pos0: None }, 3), (C07 { multi: false, len0: Some(u64::MAX), xs: vec![1, 1 << 63, u64::MAX], pos0: None }, 5)],
     }
 }
 
